@@ -77,6 +77,9 @@ func (s *RegisteredSEI) Payload() []byte {
 // CEA-608 encapsulation in SEI nal unit is defined in ATSC-120 and further
 // in CTA-708 specification (previously CEA-708).
 func ExtractCEA608sei(sd *SEIData) (*CEA608sei, error) {
+	if len(sd.payload) < 8 {
+		return nil, fmt.Errorf("CEA-608 SEI payload too short: %d bytes", len(sd.payload))
+	}
 	field1, field2, err := ParseCEA608(sd.payload[8:])
 	if err != nil {
 		return nil, err
@@ -119,6 +122,9 @@ func (s *CEA608sei) Payload() []byte {
 // ParseCEA608 parsers the the fields of data from CEA-708 encapsulation.
 // This is specified in Section 4.3 of ANSI/CTA-708-E R-2018.
 func ParseCEA608(payload []byte) ([]byte, []byte, error) {
+	if len(payload) < 2 {
+		return nil, nil, fmt.Errorf("not enough data for CEA-708 parsing")
+	}
 	pos := 0
 	ccCount := payload[pos] & 0x1f
 	pos += 2 // Advance 1 and skip reserved byte
